@@ -160,7 +160,23 @@ s = must_replace(s, """func internal_sync_nanotime() int64 {
 }""", "sema.go")
 open(os.path.join(out, "sema.go.txt"), "w").write(s)
 
+# time.go: Go 1.26 orders fake timers that fire at the same instant by a per-timer
+# random value drawn from the M's cheaprand (seeded from OS entropy). In a seeded run
+# timers of the same instant run in the order in which they were armed.
+s = open(os.path.join(src, "time.go")).read()
+s = must_replace(s, """			t.rand = cheaprand()
+""", """			if verifRandState != 0 {
+				verifTimerSeq++ // simulation overlay: first armed, first run
+				t.rand = verifTimerSeq
+			} else {
+				t.rand = cheaprand()
+			}
+""", "time.go")
+s = must_replace(s, "type timerWhen struct {", "var verifTimerSeq uint32 // simulation overlay (one P, no preemption in a seeded run)\n\ntype timerWhen struct {", "time.go")
+open(os.path.join(out, "time.go.txt"), "w").write(s)
+
 json.dump({"Replace": {
+    "@GOROOT@/src/runtime/time.go": "@OVERLAY@/time.go.txt",
     "@GOROOT@/src/runtime/sema.go": "@OVERLAY@/sema.go.txt",
     "@GOROOT@/src/runtime/runtime2.go": "@OVERLAY@/runtime2.go.txt",
     "@GOROOT@/src/runtime/proc.go": "@OVERLAY@/proc.go.txt",
